@@ -263,6 +263,15 @@ var contBoundary = []byte{0x00, 0x7f, 0x80, 0x8f, 0x90, 0x9f, 0xa0, 0xbf, 0xc0, 
 // drawAtom returns a short byte sequence from the structured cover.
 func drawAtom(r *eng.Run, allowInvalid bool) []byte {
 	if !allowInvalid {
+		if r.T.Chance(sim.LUTF8, 1, 6) {
+			// A run of ASCII (8..39 bytes): whatever follows starts at any
+			// offset of a machine word.
+			b := make([]byte, 8+r.T.Int(sim.LUTF8, 32))
+			for i := range b {
+				b[i] = byte('a' + i%26)
+			}
+			return b
+		}
 		ru := validRunes[r.T.Int(sim.LUTF8, len(validRunes))]
 		b := make([]byte, utf8.RuneLen(ru))
 		utf8.EncodeRune(b, ru)
